@@ -2,6 +2,7 @@ package main
 
 import (
 	"fmt"
+	"sort"
 	"go/token"
 	"go/types"
 	"strings"
@@ -528,6 +529,11 @@ func (vc *VC) addModItem(env *Env, ms *ModSet, item string) {
 		ms.Ghost[item] = true
 		return
 	}
+	if strings.HasPrefix(item, "stream(") && strings.HasSuffix(item, ")") {
+		r := env.eval(item[7 : len(item)-1])
+		ms.Streams = append(ms.Streams, r.S)
+		return
+	}
 	if item == "allocated" {
 		return // the allocation counter is always updated exactly
 	}
@@ -572,12 +578,18 @@ func (vc *VC) addModItem(env *Env, ms *ModSet, item string) {
 	}
 	v := env.eval(item)
 	if v.K == KSlice {
-		ms.Regions = append(ms.Regions, modRegion{v.Reg, v.Off, Add(v.Off, v.Cap)})
+		fam := ""
+		if v.T != nil {
+			if sl, ok := v.T.Underlying().(*types.Slice); ok {
+				fam = "E_" + typeKey(sl.Elem())
+			}
+		}
+		ms.Regions = append(ms.Regions, modRegion{v.Reg, v.Off, Add(v.Off, v.Cap), fam})
 		return
 	}
 	if v.K == KInt && v.T != nil {
 		if arr, ok := isArrayT(derefType(v.T)); ok {
-			ms.Regions = append(ms.Regions, modRegion{v.S, "0", numI(arr.Len())})
+			ms.Regions = append(ms.Regions, modRegion{v.S, "0", numI(arr.Len()), "E_" + typeKey(arr.Elem())})
 			return
 		}
 	}
@@ -597,7 +609,7 @@ func (vc *VC) havocModSet(st *State, pre *State, ms *ModSet, allowFreshWrites bo
 		}
 		return
 	}
-	for g := range ms.Ghost {
+	for _, g := range sortedKeys(ms.Ghost) {
 		n := "G_" + g
 		if sort, ok := vc.arrays[n]; ok {
 			st.heap[n] = vc.fresh("Hc_"+n, sort)
@@ -607,6 +619,16 @@ func (vc *VC) havocModSet(st *State, pre *State, ms *ModSet, allowFreshWrites bo
 				st.heap[n] = vc.fresh("Hc_"+n, specSort(d.Sorts[0]))
 			}
 		}
+	}
+	if len(ms.Streams) > 0 {
+		vc.streamDecls()
+		g := vc.heapGet(st, "G_pos", "(Array Int Int)")
+		for _, r := range ms.Streams {
+			np := vc.fresh("pos", "Int")
+			st.assume(vc, And(Le(Sel(g, r), np), Le(np, app("streamLen", r))))
+			g = Sto(g, r, np)
+		}
+		vc.heapSet(st, "G_pos", "(Array Int Int)", g)
 	}
 	// the allocation counter ghost may grow
 	if _, ok := vc.arrays["G_allocated"]; ok {
@@ -620,9 +642,9 @@ func (vc *VC) havocModSet(st *State, pre *State, ms *ModSet, allowFreshWrites bo
 		switch {
 		case strings.HasPrefix(n, "F_"):
 			var objs []string
-			for k, os := range ms.Fields {
+			for _, k := range sortedFieldKeys(ms.Fields) {
 				if n == k || strings.HasPrefix(n, k+"_") {
-					objs = append(objs, os...)
+					objs = append(objs, ms.Fields[k]...)
 				}
 			}
 			if len(objs) == 0 {
@@ -657,6 +679,9 @@ func (vc *VC) havocModSet(st *State, pre *State, ms *ModSet, allowFreshWrites bo
 			h := vc.heapGet(st, n, sort)
 			inner := sort[len("(Array Int ") : len(sort)-1]
 			for _, m := range ms.Regions {
+				if m.Elem != "" && n != m.Elem && !strings.HasPrefix(n, m.Elem+"_") {
+					continue
+				}
 				old := vc.name("old", inner, Sel(h, m.Reg))
 				na := vc.fresh("hv", inner)
 				vc.define(fmt.Sprintf("(forall ((i Int)) (! (=> (not (and (<= %s i) (< i %s))) (= (select %s i) (select %s i))) :pattern ((select %s i))))", m.Lo, m.Hi, na, old, na))
@@ -669,4 +694,13 @@ func (vc *VC) havocModSet(st *State, pre *State, ms *ModSet, allowFreshWrites bo
 
 func (vc *VC) define(fact string) {
 	vc.asserts = append(vc.asserts, fact)
+}
+
+func sortedFieldKeys(m map[string][]string) []string {
+	var out []string
+	for k := range m {
+		out = append(out, k)
+	}
+	sort.Strings(out)
+	return out
 }
